@@ -13,7 +13,7 @@ import (
 func main() {
 	cfg := hlib.ParseFlags()
 	s := hlib.NewSuite(cfg, "frameops")
-	s.Header = "From QF Require Import Base.Prelude Base.CaseLib Model.Frame Model.Filter Model.Ops Corr.FrameCorr.\nLocal Open Scope N_scope.\n"
+	s.Header = "From QF Require Import Base.Prelude Base.CaseLib Model.Frame Model.Filter Model.Ops Model.Eval Corr.FrameCorr.\nLocal Open Scope N_scope.\n"
 	s.CaseType = "frame_case"
 	s.CheckFn = "check_frame_case"
 	s.PerShard = 120
@@ -21,14 +21,16 @@ func main() {
 	r := hlib.NewRng(cfg.Seed)
 	for i := 0; i < cfg.N; i++ {
 		cr := r.Fork()
-		switch k := r.Intn(20); {
+		switch k := r.Intn(22); {
 		case k < 8:
 			filterCase(cr, s)
 		case k < 11:
 			projCase(cr, s)
-		case k < 16:
+		case k < 15:
 			applyCase(cr, s)
 		case k < 18:
+			evalCase(cr, s)
+		case k < 20:
 			equalsCase(cr, s)
 		default:
 			newCase(cr, s)
